@@ -60,3 +60,103 @@ Definition nonempty_res (r : tmres) : bool :=
   | _ => false
   end.
 Definition premise_tm (c : tmcase) : bool := existsb (fun x => nonempty_res (snd x)) (tc_steps c).
+
+(* ================= (ii) histories on one real node ================= *)
+(* next process id at the start; the operations with the observed return values; per actor
+   (pid, parent, exit/down messages handled); observed process list; observed relation set;
+   per name / alias: 0 = a send was accepted, 1 = unknown, 2 = other error; per event: free? *)
+Record hcase := mk_hcase {
+  h_next : N;
+  h_steps : list (op * res);
+  h_actors : list (pid * pid * list note);
+  h_plist : list pid;
+  h_rels : list key;
+  h_names : list (atom * N);
+  h_aliases : list (N * N);
+  h_events : list (atom * bool) }.
+
+Definition is_parent_exit (parent : pid) (x : note) : bool :=
+  negb (n_down x) && (if target_dec (n_target x) (TPid parent) then true else false).
+(* a trapping actor handles its mailbox up to and including an exit signal of its parent *)
+Fixpoint visible (parent : pid) (l : list note) : list note :=
+  match l with
+  | [] => []
+  | x :: tl => if is_parent_exit parent x then [x] else x :: visible parent tl
+  end.
+
+Definition res_eqb (a b : res) : bool := if res_dec a b then true else false.
+Fixpoint reslist_eqb (a b : list res) : bool :=
+  match a, b with
+  | [], [] => true
+  | x :: a', y :: b' => res_eqb x y && reslist_eqb a' b'
+  | _, _ => false
+  end.
+
+Definition resolve_code {K} (dec : forall a b : K, {a = b} + {a <> b}) (k : K) (tbl : list (K * pid)) (s : st) : N :=
+  match aget dec k tbl with
+  | None => 1
+  | Some q => if live q s then 0 else 2
+  end.
+
+Definition hist_final (c : hcase) : st * list res := run_ops (map fst (h_steps c)) (st0 (h_next c) 0).
+
+(* model = implementation: return values, what every actor handled, process list, relation set, tables *)
+Definition corr_hist (c : hcase) : bool :=
+  let '(s, rs) := hist_final c in
+  reslist_eqb rs (map snd (h_steps c)) &&
+  forallb (fun a => let '(p, parent, obs) := a in perm_eqb note_dec (visible parent (inbox_of p s)) obs) (h_actors c) &&
+  perm_eqb pid_dec (map fst (s_procs s)) (h_plist c) &&
+  perm_eqb key_dec (rels (s_tm s)) (h_rels c) &&
+  forallb (fun x => resolve_code N.eq_dec (fst x) (s_names s) s =? snd x) (h_names c) &&
+  forallb (fun x => resolve_code N.eq_dec (fst x) (s_aliases s) s =? snd x) (h_aliases c) &&
+  forallb (fun x => Bool.eqb (negb (ahas N.eq_dec (fst x) (s_events s))) (snd x)) (h_events c).
+
+(* C04 on the implementation's observations: every actor handled, for every note, exactly the number
+   of copies the specification [expected] prescribes over the history (up to the parent's exit signal) *)
+Fixpoint expected_visible (parent c : pid) (x : note) (ops : list op) (s : st) : nat :=
+  match ops with
+  | [] => 0%nat
+  | o :: tl =>
+      let dies := existsb (fun gr => if target_dec (fst gr) (TPid parent) then
+                                        Nat.eqb (expected o s c (mknote false (TPid parent) (snd gr))) 1 else false) (gone o s) in
+      if dies then (if is_parent_exit parent x then expected o s c x else 0%nat)
+      else (expected o s c x + expected_visible parent c x tl (fst (exec o s)))%nat
+  end.
+
+Definition spec_hist_c04 (c : hcase) : bool :=
+  let ops := map fst (h_steps c) in
+  let s0 := st0 (h_next c) 0 in
+  let sf := fst (hist_final c) in
+  forallb (fun a => let '(p, parent, obs) := a in
+     forallb (fun x => Nat.eqb (count_occ note_dec obs x) (expected_visible parent p x ops s0))
+             (obs ++ inbox_of p sf)) (h_actors c).
+
+(* C06 on the implementation's observations only: the observed relation set mentions only listed
+   (live) processes as consumers and only resolvable targets; no name / alias resolves to a dead
+   process; no actor of the case that is absent from the process list is named anywhere *)
+Definition code_of {K} (dec : forall a b : K, {a = b} + {a <> b}) (k : K) (l : list (K * N)) : N :=
+  match aget dec k l with Some x => x | None => 1 end.
+Definition target_resolvable (c : hcase) (t : target) : bool :=
+  match t with
+  | TPid p => memb pid_dec p (h_plist c)
+  | TName n _ => code_of N.eq_dec n (h_names c) =? 0
+  | TAlias _ a => code_of N.eq_dec a (h_aliases c) =? 0
+  | TEvent e _ => match aget N.eq_dec e (h_events c) with Some free => negb free | None => false end
+  | TNode _ => true
+  end.
+Definition spec_hist_c06 (c : hcase) : bool :=
+  forallb (fun k => memb pid_dec (kc k) (h_plist c) && target_resolvable c (kt k)) (h_rels c) &&
+  forallb (fun x => negb (snd x =? 2)) (h_names c) &&
+  forallb (fun x => negb (snd x =? 2)) (h_aliases c) &&
+  (* returned process ids strictly increase *)
+  (fix inc (lo : N) (l : list (op * res)) : bool :=
+     match l with
+     | [] => true
+     | (_, RPid p) :: tl => (lo <? pnum p) && inc (pnum p) tl
+     | _ :: tl => inc lo tl
+     end) (h_next c) (h_steps c).
+
+(* non-triviality: somebody terminated and somebody was notified *)
+Definition premise_hist (c : hcase) : bool :=
+  existsb (fun a => match snd a with [] => false | _ => true end) (h_actors c) &&
+  existsb (fun x => match fst x with OTerminate _ _ => match snd x with ROk => true | _ => false end | _ => false end) (h_steps c).
